@@ -133,13 +133,11 @@ theorem wire_sig : ∀ (rs : List (Str × Conn)) (w w' : World),
 theorem worldOf_sig (reg : Str → Bool) (n : Node) (w : World) (h : Spec.worldOf reg n = .ok w) :
     w.map ModInst.sig = (Spec.modsOf [] n).map denotedSig := by
   unfold Spec.worldOf at h
-  simp only [] at h
   split at h
   · cases h
   · split at h
     · cases h
     · rw [wire_sig _ _ _ h, List.map_map]
       rfl
-
 
 end Ndl
